@@ -477,6 +477,25 @@ func c13StressRun(sc c13Stress) (vk.Result, error) {
 			i++
 		}
 	}
+	nClosing, firstClosing := 0, uint64(0)
+	for _, f := range fs {
+		if f.closing == closingStream {
+			if nClosing == 0 {
+				firstClosing = f.seq
+			}
+			nClosing++
+		}
+	}
+	if nClosing > 1 {
+		return res, vk.Violatef("%d messages of the stream carry the closing flag (the first is numbered %d, the last %d) although Close was called once: messages were put on the wire after the closing frame - a write was accepted on the closed stream and the peer drops what follows the first of them", nClosing, firstClosing, closingSeq)
+	}
+	if haveClosing {
+		for _, f := range fs {
+			if f.closing == closingNothing && f.seq > closingSeq {
+				return res, vk.Violatef("a data frame numbered %d is on the wire after the closing frame (%d): a write was accepted on the closed stream - the closing frame is not numbered after every frame, and the peer drops what follows it", f.seq, closingSeq)
+			}
+		}
+	}
 	if atomic.LoadInt32(&closeCalled) == 1 {
 		if !haveClosing {
 			return res, vk.Violatef("Close was called and returned but no closing frame is on the wire")
